@@ -34,6 +34,7 @@ CONSTANTS
   WriteLock,     \* TRUE: frames are written under a writer lock
   AtomicDown,    \* TRUE: inFlightDown decrements AND clears the deadline under the mutex (FALSE: clears it after unlocking)
   CompleteOnDownError, \* TRUE: receive completes the call when inFlightDown fails (FALSE: the pinned tree dropped it)
+  CloseBeforeSwap, \* TRUE: fail() closes the socket BEFORE it swaps the sent map and completes what was in it (FALSE: after)
   MultiNames,    \* sequence of names for the multis that may be flushed, e.g. <<"m1", "m2">>
   MaxFaults, MaxCancels, AllowClose, AllowReorder
 
@@ -115,15 +116,19 @@ FailCall(p, cont) ==
 
 FailStep(p) ==
   /\ pc[p][1] = "infail" /\ failer = p
-  /\ \/ /\ failpc = "closeDone" /\ done' = TRUE /\ failpc' = "closeConn"
+  /\ \/ /\ failpc = "closeDone" /\ done' = TRUE /\ failpc' = (IF CloseBeforeSwap THEN "closeConn" ELSE "swap")
         /\ UNCHANGED <<pc, failOnce, failer, conn, sent, results>>
-     \/ /\ failpc = "closeConn" /\ conn' = "closed" /\ failpc' = "swap"
-        /\ UNCHANGED <<pc, failOnce, failer, done, sent, results>>
+     \/ /\ failpc = "closeConn" /\ conn' = "closed"
+        /\ IF CloseBeforeSwap
+           THEN failpc' = "swap" /\ UNCHANGED <<pc, failOnce, failer>>
+           ELSE failOnce' = "yes" /\ failer' = "none" /\ failpc' = "closeDone" /\ SetPc(p, pc[p][2])
+        /\ UNCHANGED <<done, sent, results>>
      \/ /\ failpc = "swap"       \* failSentRPCs: swap the map, then complete everything that was in it
         /\ sent' = {}
         /\ Deliver(UNION {CallsOf(it) : it \in sent}, "closed")
-        /\ failOnce' = "yes" /\ failer' = "none" /\ failpc' = "closeDone"
-        /\ SetPc(p, pc[p][2])
+        /\ IF CloseBeforeSwap
+           THEN failOnce' = "yes" /\ failer' = "none" /\ failpc' = "closeDone" /\ SetPc(p, pc[p][2])
+           ELSE failpc' = "closeConn" /\ UNCHANGED <<pc, failOnce, failer>>   \* a sender admitted earlier may still register and write
         /\ UNCHANGED <<done, conn>>
   /\ UNCHANGED <<broken, inFlight, deadline, wlock, offer, cur, nmulti, multis, wire, inbox, responded, accepted,
                  ctxDone, armed, answered, failed, timedOut, refusedLate, faults, cancels>>
